@@ -53,6 +53,9 @@ LEDGER_SINKS = ("_record_action",)
 EXCEPTION_BASES = {"DemeterError": ("RuntimeError",), "DemeterWarning": ("RuntimeWarning",), "InsufficientBalanceError": ("DemeterError",)}
 # constants whose name states their value (confirmed by reading)
 from fractions import Fraction as _F
+# grid constants: the option data is hourly, everything else is minutely (confirmed by reading)
+TIME_CONSTANTS = {("deribit.market", "BASIC_INTERVAL"): 3600, ("deribit._typing", "DERIBIT_OPTION_FREQ"): 3600,
+                  ("core.actuator", "BASIC_INTERVAL"): 60, ("broker._typing", "BASE_FREQ"): 60}
 NAMED_CONSTANTS = {("_typing", "DECIMAL_0"): _F(0), ("_typing", "DECIMAL_1"): _F(1), ("result.metrics.core", "DECIMAL_1"): _F(1),
                    ("uniswap.helper", "Q96"): _F(2) ** 96, ("gmx._typing", "PRICE_PRECISION"): _F(10) ** 30}
 
@@ -399,6 +402,49 @@ def world_rule(model: Model, res, scope: Tuple[str, ...] = (), rule: str = "R-WO
             return -fold(e.operand)
         raise ValueError(ast.unparse(e))
 
+    def seconds(e):
+        """pd.Timedelta("1h") / Timedelta(hours=1) / "1min" -> seconds"""
+        import re as _re
+        unit = {"d": 86400, "day": 86400, "days": 86400, "h": 3600, "hour": 3600, "hours": 3600, "min": 60, "t": 60, "minute": 60, "minutes": 60,
+                "s": 1, "sec": 1, "second": 1, "seconds": 1}
+        if isinstance(e, ast.Call) and ast.unparse(e.func).split(".")[-1] in ("Timedelta", "timedelta"):
+            if len(e.args) == 1 and not e.keywords:
+                return seconds(e.args[0])
+            tot = 0
+            for k in e.keywords:
+                if k.arg not in unit or not isinstance(k.value, ast.Constant):
+                    raise ValueError(ast.unparse(e))
+                tot += unit[k.arg] * k.value.value
+            if e.args:
+                raise ValueError(ast.unparse(e))
+            return tot
+        if isinstance(e, ast.Constant) and isinstance(e.value, str):
+            mm = _re.fullmatch(r"\s*(\d+)\s*([A-Za-z]+)\s*", e.value)
+            if mm and mm.group(2).lower() in unit:
+                return int(mm.group(1)) * unit[mm.group(2).lower()]
+        if isinstance(e, ast.Name):
+            tgt = model.resolve_name(cur_mod[0], e.id)
+            if isinstance(tgt, tuple) and tgt and tgt[0] == "const":
+                return seconds(tgt[2])
+        raise ValueError(ast.unparse(e))
+
+    cur_mod = [None]
+    for (modname, cname), want in TIME_CONSTANTS.items():
+        m = model.modules.get(model.pkg + "." + modname)
+        if m is None or cname not in m.consts or not in_scope(m.relpath):
+            continue
+        n += 1
+        cur_mod[0] = m
+        try:
+            got = seconds(m.consts[cname])
+        except (ValueError, TypeError):
+            refuse.append(("W6", f"{m.relpath}:{getattr(m.consts[cname], 'lineno', 0)}", f"{modname}.{cname}", cname,
+                           f"the time constant {cname} = {ast.unparse(m.consts[cname])[:60]} cannot be folded"))
+            continue
+        if got != want:
+            findings.append(("W6", f"{m.relpath}:{getattr(m.consts[cname], 'lineno', 0)}", f"{modname}.{cname}", f"{cname} is not {want} s",
+                             f"the grid constant `{cname} = {ast.unparse(m.consts[cname])[:50]}` is {got} s, not {want} s: the code and the references "
+                             f"both read it by name (resampling, open / closed bars, settlement grid), so every identity check stays silent"))
     for (modname, cname), want in NAMED_CONSTANTS.items():
         m = model.modules.get(model.pkg + "." + modname)
         if m is None or cname not in m.consts:
